@@ -548,6 +548,9 @@ def main(pid, tier, repo=None):
         rule_handle(ctx)
         rule_noleak(ctx)
         rule_oom(ctx)
+        # exhaustion must surface as an error also when it happens in one of several parallel tasks: the shared result slot is monotone
+        from . import c07
+        c07.rule_errslot(ctx)
         from . import unsafe_rules
         unsafe_rules.rule_type_census(ctx, "handle")
     if tier == "thorough":
